@@ -362,11 +362,16 @@ func randHistory(r *core.Rng, length int) hcase {
 			t.Globs = append(t.Globs, core.Pick(r, randGlobs))
 		}
 		h.Alts = []hshape{alt}
+		// a third version in which the last task is gone (and comes back when the original is restored)
+		if len(s.Tasks) > 1 {
+			gone := hshape{Name: s.Name, Files: s.Files, Links: s.Links, Tasks: append([]htask{}, s.Tasks[:len(s.Tasks)-1]...)}
+			h.Alts = append(h.Alts, gone)
+		}
 	}
 	for len(h.Ops) < length {
 		switch k := r.Intn(100); {
 		case len(h.Alts) > 0 && k < 8:
-			h.Ops = append(h.Ops, hop{Kind: "spokfile", Value: core.Pick(r, []string{"0", "0", "-1"})})
+			h.Ops = append(h.Ops, hop{Kind: "spokfile", Value: core.Pick(r, []string{"0", "0", "-1", "-1", "1"})})
 		case k < 50:
 			var req []string
 			for _, t := range s.Tasks {
@@ -391,8 +396,10 @@ func randHistory(r *core.Rng, length int) hcase {
 			h.Ops = append(h.Ops, hop{Kind: "write", File: core.Pick(r, s.Files), Value: core.Pick(r, values)})
 		case k < 95:
 			h.Ops = append(h.Ops, hop{Kind: "delete", File: core.Pick(r, s.Files)})
-		default:
+		case k < 98:
 			h.Ops = append(h.Ops, hop{Kind: "rmcache"})
+		default:
+			h.Ops = append(h.Ops, hop{Kind: "rmcachefile"})
 		}
 	}
 	return h
@@ -475,7 +482,7 @@ func histRandom(c *core.Ctx, sb *sandbox, res *core.ShardResult, wl *core.WLog) 
 // Orchestrator
 
 var histRules = map[string]string{
-	"C01": "states = (content of every project file, bytes of .spok/cache.json or its absence, model of each task's last success); breadth-first search from the empty project over {write 'v1' / the empty content to each file, delete it, rm -rf .spok, run every non-empty task subset plain/forced, also with the first command of each closure task failing} on 12 spokfile shapes (task names differing only in case, literal, glob, recursive glob, both, no-file task, shared file, task dependency, same glob with different literals, a file named twice, a generated input copied by a dependency, chain of three), each (state, run-op) executed once by the real code in-process (to a fixpoint unless the cap is reported), plus seeded random histories in a larger universe (3 values and the empty content, 7 files incl. hidden and nested, random task shapes, in a third of the histories the spokfile itself is edited so that a task declares one dependency more or less), every 20th also through the race-built binary. evaluations = spok invocations judged; non-trivial = distinct (state, run-op) transitions in which a skip was observed, resp. random histories with a skip after an edit and a re-run",
+	"C01": "states = (content of every project file, bytes of .spok/cache.json or its absence, model of each task's last success); breadth-first search from the empty project over {write 'v1' / the empty content to each file, delete it, rm -rf .spok, rm .spok/cache.json, run every non-empty task subset plain/forced, also with the first command of each closure task failing} on 13 spokfile shapes (a dependency that may be a symbolic link, task names differing only in case, literal, glob, recursive glob, both, no-file task, shared file, task dependency, same glob with different literals, a file named twice, a generated input copied by a dependency, chain of three), each (state, run-op) executed once by the real code in-process (to a fixpoint unless the cap is reported), plus seeded random histories in a larger universe (3 values and the empty content, 7 files incl. hidden and nested, random task shapes, in a third of the histories the spokfile itself is edited so that a task declares one dependency more or less), every 20th also through the race-built binary. evaluations = spok invocations judged; non-trivial = distinct (state, run-op) transitions in which a skip was observed, resp. random histories with a skip after an edit and a re-run",
 	"C02": "same search and histories as C01, judged in the converse direction (crash-free only); non-trivial = distinct transitions/histories in which the model demanded a skip inside a multi-task invocation",
 	"C14": "same search and histories as C01 (any run may carry --force); non-trivial = distinct forced transitions that hit an up-to-date task, resp. random histories with such a forced run followed by an unforced run",
 }
